@@ -15,6 +15,9 @@ import (
 	"github.com/shutter-network/rolling-shutter/rolling-shutter/medley/testkeygen"
 	"github.com/shutter-network/rolling-shutter/rolling-shutter/p2pmsg"
 
+	"github.com/shutter-network/rolling-shutter/rolling-shutter/keyper/epochkg"
+	"github.com/shutter-network/shutter/shlib/puredkg"
+
 	"verif/sim/simkit"
 	"verif/sim/simnet"
 )
@@ -37,6 +40,8 @@ type c01Msg struct {
 	kind   string
 	data   []byte
 	local  bool
+	shares []*p2pmsg.KeyShare
+	okAt   []bool // per share: is it the valid share of the claimed sender for its identity
 }
 
 func runC01(r *simkit.Run) {
@@ -104,6 +109,10 @@ func runC01(r *simkit.Run) {
 			r.InfraFail("marshal: %v", err)
 		}
 		m.data = data
+		m.shares = shares
+		for _, sh := range shares {
+			m.okAt = append(m.okAt, bytes.Equal(sh.Share, w.keys.EpochSecretKeyShare(identitypreimage.IdentityPreimage(sh.IdentityPreimage), sender).Marshal()))
+		}
 		return m
 	}
 
@@ -145,6 +154,8 @@ func runC01(r *simkit.Run) {
 	r.Eventf("n=%d t=%d receiver=%d identities=%d messages=%d", n, t, recv, nid, len(seq))
 	r.Sample["config"] = fmt.Sprintf("n=%d t=%d receiver=%d identities=%d messages=%d", n, t, recv, nid, len(seq))
 	w.gate()
+
+	c01Bare(r, w, recv, seq)
 
 	held := map[string]map[int]bool{} // identity -> senders with a delivered fully valid share
 	for _, id := range ids {
@@ -298,5 +309,78 @@ func c01CheckDecrypts(r *simkit.Run, w *worldC, id []byte, key []byte) {
 	dec, err := enc.Decrypt(sk)
 	if err != nil || !bytes.Equal(dec, msg) {
 		r.Fail("wrong-key", "decrypt", "stored key for %q does not decrypt a message encrypted for that identity (%v)", id, err)
+	}
+}
+
+// c01Bare feeds the same sequence, share by share and without any validator in front, to a bare
+// epochkg.EpochKG of the receiver (the aggregation unit the handler builds from the stored
+// rows): a key appears exactly when t distinct valid shares are held, it is the reference key,
+// and junk or repeated shares - whatever sender they claim, the receiver's own index included -
+// are refused and change nothing.
+func c01Bare(r *simkit.Run, w *worldC, recv int, seq []*c01Msg) {
+	var pks []*shcrypto.EonPublicKeyShare
+	for i := 0; i < w.n; i++ {
+		pks = append(pks, w.keys.EonPublicKeyShare(i))
+	}
+	kg := epochkg.NewEpochKG(&puredkg.Result{
+		Eon: uint64(w.kci), NumKeypers: uint64(w.n), Threshold: uint64(w.t), Keyper: uint64(recv),
+		SecretKeyShare: w.keys.EonSecretKeyShare(recv), PublicKey: w.keys.EonPublicKey(), PublicKeyShares: pks,
+	})
+	held := map[string]map[int]bool{}
+	feed := func(id []byte, sender int, share *shcrypto.EpochSecretKeyShare, valid bool, kind string) {
+		hx := identitypreimage.IdentityPreimage(id).Hex()
+		_, hadKey := kg.SecretKeys[hx]
+		if held[hx] == nil {
+			held[hx] = map[int]bool{}
+		}
+		dup := held[hx][sender]
+		var err error
+		func() {
+			defer func() {
+				if e := recover(); e != nil {
+					r.Fail("aggregator-panic", "bare-epochkg", "EpochKG.HandleEpochSecretKeyShare panicked on a %s share claiming sender %d: %v", kind, sender, e)
+				}
+			}()
+			err = kg.HandleEpochSecretKeyShare(&epochkg.EpochSecretKeyShare{Eon: uint64(w.kci), IdentityPreimage: identitypreimage.IdentityPreimage(id), Sender: uint64(sender), Share: share})
+		}()
+		if !hadKey {
+			if !valid && err == nil {
+				r.Fail("invalid-share-accepted", "bare-epochkg/"+kind, "bare EpochKG of keyper %d took an invalid (%s) share claiming sender %d for %q without an error", recv, kind, sender, id)
+			}
+			if valid && !dup && err != nil {
+				r.Fail("valid-share-rejected", "bare-epochkg/"+kind, "bare EpochKG refused a new valid share of sender %d for %q: %v", sender, id, err)
+			}
+			if valid {
+				held[hx][sender] = true
+			}
+		}
+		k, have := kg.SecretKeys[hx]
+		if have != (len(held[hx]) >= w.t) {
+			r.Fail("key-not-exactly-at-threshold", "bare-epochkg", "bare EpochKG: key for %q present=%t with %d distinct valid shares held (t=%d) after a %s share of sender %d", id, have, len(held[hx]), w.t, kind, sender)
+		}
+		if have {
+			if k == nil || !bytes.Equal(k.Marshal(), w.refKey(id)) {
+				r.Fail("wrong-key", "bare-epochkg", "bare EpochKG derived a key for %q that is not the reference key", id)
+			}
+		}
+		r.Probe("bare-shares-fed")
+	}
+	for _, m := range seq {
+		if m.local {
+			for _, id := range m.ids {
+				feed(id, recv, kg.ComputeEpochSecretKeyShare(identitypreimage.IdentityPreimage(id)), true, "own")
+			}
+			continue
+		}
+		for i, sh := range m.shares {
+			x := new(shcrypto.EpochSecretKeyShare)
+			if err := x.Unmarshal(sh.Share); err != nil {
+				continue
+			}
+			if !m.okAt[i] && m.sender == recv {
+				r.Probe("bare-junk-claiming-own-index")
+			}
+			feed(sh.IdentityPreimage, m.sender, x, m.okAt[i], m.kind)
+		}
 	}
 }
